@@ -97,6 +97,19 @@ CHECKS["C02"] = dict(
     technique="Coq proof (composition of the slice-algebra theorems) + differential runs of the real client against numpy over DAP2 and a reference DAP4 server",
     design="7/C02")
 
+CHECKS["C15"] = dict(
+    text="Machine-checked proof (Coq): if every statement of BaseHandler.__call__ that may raise lies inside a try that catches "
+         "everything, no behaviour of those statements makes the call raise (and conversely one raising statement outside lets an "
+         "exception out); the premise is discharged on the statement list extracted from the current source on every run, so "
+         "moving a statement out of the try breaks a named obligation; the error response literals from the source format to a "
+         "DAP2 error document. Requests from a CE grammar with injected faults are sent to plain and gzip handlers; outcome class is "
+         "checked and every 200 body is read to its end.",
+    note=TB + "Translator tools/gen_facts.py (Python ast) is trusted for the statement list and its syntactic may-raise "
+              "over-approximation; lazily raised exceptions during body iteration are outside __call__ and are covered by the runs "
+              "(one known finding: empty lazy sequences).",
+    technique="Coq proof over a statement list regenerated from the source (fail-closed ast extraction) + fault-injecting request grammar",
+    design="7/C15")
+
 NOT_YET = {
 }
 
